@@ -16,7 +16,9 @@ RULE = ("operation sequences of length 2..7 on the real default stack [bottom pr
         "undecodable frame (coder), handler rejecting a stanza (picture notification neither set nor delete), application callback raising "
         "(top), reply (pong/ack) whose own send fails; failing op at every position, follow-ups issued from the same and from another thread. "
         "After every op: result class, held locks per layer, flush lock and queue length are compared with the Lean model; the oracle checks "
-        "caller-visible error, no held lock, completion of the follow-up. distinct = distinct op sequence.")
+        "caller-visible error, no held lock, completion of the follow-up. stream 'keepalive': rounds of the iq layer's keep-alive (what the ping thread does "
+        "when its interval has elapsed) with the server's answer handled normally / with the application callback raising / undecodable / missing: no disconnect "
+        "is asked for while every ping has been answered, errors reach the caller, the stack stays usable. distinct = distinct op sequence.")
 ASSUMPTIONS = ["operations are issued one at a time (by any thread): locks are threading.Lock without owner, so a held lock at quiescence means "
                "every later acquire blocks forever — detected deterministically by tracked locks instead of timeouts",
                "the sequence streams issue one operation at a time; concurrent receives (with a failure while another thread's frame is queued) are run "
@@ -133,6 +135,13 @@ def cases(chk):
     for disp, exc in ([("socket", "RuntimeError"), ("socket", "KeyError"), ("asyncore", "RuntimeError")] if chk.quick() else
                       [(d_, e_) for d_ in ("socket", "asyncore") for e_ in ("RuntimeError", "ValueError", "KeyError", "AttributeError")]):
         yield "dispatchers", {"dispatcher": disp, "exc": exc}
+    # the keep-alive's bookkeeping across failures while an answer is handled
+    yield "keepalive", {"rounds": ["pong-callback-raises", "pong", "pong"]}
+    yield "keepalive", {"rounds": ["pong", "pong-callback-raises", "pong-callback-raises", "pong"]}
+    yield "keepalive", {"rounds": ["pong-undecodable", "pong"]}
+    yield "keepalive", {"rounds": ["unanswered", "pong"]}
+    for _ in range(chk.scale(12, 300)):
+        yield "keepalive", {"rounds": [r.choice(["pong", "pong", "pong-callback-raises", "pong-callback-raises", "pong-undecodable", "unanswered"]) for _i in range(r.randint(2, 6))]}
     # the segment layer alone, with a top that raises for chosen frames: per call, the real layer against Model/Segments.lean's recvF
     yield "segfail", {"frames": ["07", "0809", "05"], "bad": [1], "cuts": [5], "extra": 1, "seed": 1}
     for _ in range(chk.scale(150, 4000)):
@@ -159,7 +168,7 @@ def cases(chk):
 
 
 def nontrivial(stream, case):
-    if stream in ("concurrent", "coalesced", "segfail", "dispatchers"):
+    if stream in ("concurrent", "coalesced", "segfail", "dispatchers", "keepalive"):
         return repr(case)
     return (tuple(case["ops"]), tuple(case["threads"]))
 
@@ -490,7 +499,90 @@ def run_dispatchers(chk, case):
     return fails
 
 
+def run_keepalive(chk, case):
+    """the iq layer's keep-alive on the real default stack: per round, what YowPingThread.run does when its interval has elapsed (waitPong + sendIq
+    of a fresh ping), then the server's answer — handled normally, with the application callback raising, with the reply's frame undecodable, or no
+    answer at all.  A failure while the answer is handled is reported to the caller and leaves the stack usable: in particular the keep-alive must not
+    ask for a disconnect while every ping written has been answered."""
+    from yowsup.structs import ProtocolTreeNode
+    from yowsup.layers.coder.encoder import WriteEncoder
+    from yowsup.layers.coder.tokendictionary import TokenDictionary
+    from yowsup.layers.network import YowNetworkLayer
+    from yowsup.layers.protocol_iq.protocolentities import PingIqProtocolEntity
+    from yowsup.layers.protocol_presence.protocolentities import AvailablePresenceProtocolEntity
+    fails = []
+    stack, insts, bottom, top, noise = build()
+    iq = [x for x in insts[IDX["protocol"]].sublayers if type(x).__name__ == "YowIqProtocolLayer"][0]
+    unanswered = []
+    for ri, kind in enumerate(case["rounds"]):
+        chk.hit("keepalive:" + kind)
+        ne, nb = len(bottom.events), len(bottom.sent)
+        ping = PingIqProtocolEntity()
+        try:
+            iq.waitPong(ping.getId())
+            iq.sendIq(ping)
+        except tracked.BlockedForever as e:
+            fails.append(oracle("C12:blocks-forever", "keep-alive rounds %s: round #%d never completes: %s" % (case["rounds"], ri, e)))
+            break
+        except Exception as e:
+            fails.append(oracle("C12:followup-fails", "keep-alive rounds %s: round #%d raised %r" % (case["rounds"], ri, e)))
+            break
+        disc = [e for e in bottom.events[ne:] if e.getName() == YowNetworkLayer.EVENT_STATE_DISCONNECT]
+        if disc and not unanswered:
+            fails.append(oracle("C12:spurious-ping-timeout", "keep-alive rounds %s: at round #%d the keep-alive asks for a disconnect (reason %r) although the server answered "
+                                "every ping — the failure while an answer was handled left the ping recorded as unanswered"
+                                % (case["rounds"], ri, disc[0].getArg("reason"))))
+            break
+        if disc:
+            break           # a ping really went unanswered: closing is the keep-alive's job (C16)
+        if len(bottom.sent) - nb != 2:
+            fails.append(oracle("C12:followup-incomplete", "keep-alive rounds %s: round #%d wrote %d chunks instead of one ping frame" % (case["rounds"], ri, len(bottom.sent) - nb)))
+            break
+        if kind == "unanswered":
+            unanswered.append(ping.getId())
+            continue
+        node = ProtocolTreeNode("iq", {"id": ping.getId(), "type": "result", "from": "s.whatsapp.net"})
+        body = bytes(bytearray(WriteEncoder(TokenDictionary()).protocolTreeNodeToBytes(node))) if kind != "pong-undecodable" else b"\x00\xf8\x02\xf7\x01"
+        body = noisefake.wire(body)
+        top.armed = kind == "pong-callback-raises"
+        res, err = "ok", None
+        try:
+            stack.receive(_be24(len(body)) + body)
+        except tracked.BlockedForever as e:
+            res, err = "blocked", e
+        except Exception as e:
+            res, err = "raised", e
+        top.armed = False
+        if kind == "pong-undecodable":
+            unanswered.append(ping.getId())       # the answer never reached the iq layer
+        want = "ok" if kind == "pong" else "raised"
+        held = [l.name for l in tracked.held_locks()]
+        if res == "blocked":
+            fails.append(oracle("C12:blocks-forever", "keep-alive rounds %s: the answer of round #%d is never handled: %s" % (case["rounds"], ri, err)))
+        elif res != want:
+            fails.append(oracle("C12:error-not-reported" if want == "raised" else "C12:followup-fails",
+                                "keep-alive rounds %s: handling the answer of round #%d (%s) ended %s (%r)" % (case["rounds"], ri, kind, res, err)))
+        elif held:
+            fails.append(oracle("C12:lock-leak:layer", "keep-alive rounds %s: after the answer of round #%d (%s) these locks stay held: %s" % (case["rounds"], ri, kind, ", ".join(held))))
+        if fails:
+            break
+        # the stack is still usable for the application
+        nb = len(bottom.sent)
+        try:
+            stack.send(AvailablePresenceProtocolEntity())
+        except Exception as e:
+            fails.append(oracle("C12:followup-fails", "keep-alive rounds %s: a send after round #%d raised %r" % (case["rounds"], ri, e)))
+            break
+        if len(bottom.sent) - nb != 2:
+            fails.append(oracle("C12:followup-incomplete", "keep-alive rounds %s: a send after round #%d wrote %d chunks" % (case["rounds"], ri, len(bottom.sent) - nb)))
+            break
+    tracked.release_all()
+    return fails
+
+
 def run_case(chk, stream, case):
+    if stream == "keepalive":
+        return run_keepalive(chk, case)
     if stream == "dispatchers":
         return run_dispatchers(chk, case)
     if stream == "concurrent":
@@ -641,6 +733,12 @@ def run_case(chk, stream, case):
 
 def shrink(stream, case):
     if stream in ("concurrent", "dispatchers"):
+        return
+    if stream == "keepalive":
+        rs = case["rounds"]
+        for i in range(len(rs)):
+            if len(rs) > 1:
+                yield dict(case, rounds=rs[:i] + rs[i + 1:])
         return
     if stream == "segfail":
         fr, bad, cuts = case["frames"], case["bad"], case["cuts"]
